@@ -76,6 +76,34 @@ class ManagerSpins(ManagerCrashed):
         return "busy_loop_on_dead_connection"
 
 
+# manager threads left blocked for ever in this process (they may hold locks of the logging module: the
+# interpreter's normal shutdown would wait for those, so the entry point leaves through os._exit instead)
+HANGS = 0
+
+
+class ManagerHung(ManagerCrashed):
+    """The manager thread is blocked for ever inside the code under test (it holds the baton and never comes
+    back to a simulator call; its stack does not move): it serves nobody any more."""
+
+    def __init__(self, stack):
+        self.stack = stack
+        inner = "?"
+        for f in stack:
+            if f[0] in ("manager.py", "client.py", "client_logging.py", "message_base.py", "validators.py",
+                        "header.py", "message.py"):
+                inner = f"{f[0]}:{f[2]}"
+                break
+        Exception.__init__(self, "the manager thread is blocked for ever at "
+                           + " <- ".join(f"{f[0]}:{f[1]}:{f[2]}" for f in stack[:6]))
+        self.exc = None
+        self.frames = []
+        self.chain = [f[2] for f in stack if f[0] == "manager.py"][::-1]
+        self.where = inner
+
+    def signature(self) -> str:
+        return f"manager_hung@{self.where}"
+
+
 class _Writable:
     """membership test 'conn was able to accept data in that round'"""
 
@@ -248,18 +276,57 @@ class World:
         if self.baton.current is not self.baton.main:
             raise SimInternalError("step() from a non-driver task")
         t = self.mgr_task
+        if t is not None and t.abandoned and self.manager_crash is not None:
+            raise self.manager_crash
         if t is None or t.done:
             self._raise_if_crashed()
             if getattr(self, "round_cap_hit", False):
                 raise SimStall(f"run exceeded the cap of {self.max_rounds} manager rounds")
             return "dead"
-        self.baton.switch(t)
+        try:
+            self.baton.switch(t)
+        except TaskHung:
+            self._classify_hang(t)
+            raise
         if t.done:
             self.mgr_state = "dead"
             self._raise_if_crashed()
             if getattr(self, "round_cap_hit", False):
                 raise SimStall(f"run exceeded the cap of {self.max_rounds} manager rounds")
         return self.mgr_state
+
+    def _classify_hang(self, t):
+        """The manager did not come back within the wall limit.  If its stack is inside the code under test and
+        does not move any more, that is a manager that hangs (a violation, reported like a crash); anything else
+        stays a harness error."""
+        import sys as _sys
+        import time as _time
+
+        def sample():
+            fr = _sys._current_frames().get(t.thread.ident) if t.thread else None
+            out = []
+            while fr is not None and len(out) < 40:
+                out.append((os.path.basename(fr.f_code.co_filename), fr.f_lineno, fr.f_code.co_name,
+                            fr.f_code.co_filename))
+                fr = fr.f_back
+            return out
+        a = sample()
+        _time.sleep(1.0)
+        b = sample()
+        if not a or a != b:
+            return
+        simdir = os.path.dirname(os.path.abspath(__file__))
+        if os.path.dirname(os.path.abspath(a[0][3])) == simdir:
+            return          # parked inside the simulator: not the code under test
+        if not any("pyrtma" in f[3] for f in a):
+            return
+        t.abandoned = True
+        global HANGS
+        HANGS += 1
+        self.mgr_state = "dead"
+        self.manager_crash = ManagerHung([(f[0], f[1], f[2]) for f in a])
+        self.net.log("MGR_HUNG", self.manager_crash.signature())
+        raise self.manager_crash
 
     def _raise_if_crashed(self):
         t = self.mgr_task
